@@ -148,6 +148,15 @@ func FloatAsSigned[S constraints.Float, D constraints.Signed](src *Buffer[S], ds
 	// determine the multiplier for bit depth conversion
 	msv := D(dst.BitDepth().MaxSignedValue())
 	for i := 0; i < length; i++ {
+		// clip values beyond the [-1,1] range, conversion of such values
+		// to integer types can wrap around.
+		if f := float64(src.Sample(i)); f >= 1 {
+			dst.SetSample(i, msv)
+			continue
+		} else if f <= -1 {
+			dst.SetSample(i, -msv-1)
+			continue
+		}
 		var sample D
 		if f := float64(src.Sample(i)); f > 0 {
 			// detect overflow
@@ -181,6 +190,15 @@ func FloatAsUnsigned[S constraints.Float, D constraints.Unsigned](src *Buffer[S]
 	msv := D(dst.BitDepth().MaxSignedValue())
 	offset := msv + 1
 	for i := 0; i < length; i++ {
+		// clip values beyond the [-1,1] range, conversion of such values
+		// to integer types can wrap around.
+		if f := float64(src.Sample(i)); f >= 1 {
+			dst.SetSample(i, msv+offset)
+			continue
+		} else if f <= -1 {
+			dst.SetSample(i, 0)
+			continue
+		}
 		var sample D
 		if f := float64(src.Sample(i)); f > 0 {
 			// detect overflow
